@@ -66,6 +66,14 @@ func fullSchema() map[string]any {
 }
 
 func validPoint(t *rapid.T, label string, withId bool) map[string]any {
+	if rapid.IntRange(0, 7).Draw(t, label+"-bare") == 0 {
+		// a point of nothing but its id (or of nothing at all): no field is mandatory
+		p := map[string]any{}
+		if withId {
+			p["_id"] = rapid.SampledFrom(poolIds).Draw(t, label+"-id")
+		}
+		return p
+	}
 	p := map[string]any{
 		"vector": []any{float64(rapid.IntRange(-3, 3).Draw(t, label+"-vx")), float64(rapid.IntRange(-3, 3).Draw(t, label+"-vy"))},
 		"flat":   []any{float64(rapid.IntRange(-3, 3).Draw(t, label+"-fx")), 0.5},
